@@ -410,7 +410,7 @@ only (`ast.findTable`), so a GlyphClassDef in a second block does not stop the w
 example : ∃ i : Input, userAnyClassDef i = true ∧
     (gdefWrite i.quant i.glyphs i.categories i.blocks).classDef ≠ none :=
   ⟨{ glyphs := [⟨"a", []⟩], categories := [("a", "base")], blocks := [⟨false, false⟩, ⟨true, false⟩],
-     quant := none, dir := ⟨false, none⟩, cursTodo := true }, by decide⟩
+     quant := none, dir := { anyLtrCp := false, ltr := none }, cursTodo := true }, by decide⟩
 
 
 /-! ### ligature carets -/
@@ -904,11 +904,51 @@ theorem mem_lookupsForPair (i : Input) (p : String × String) (lk : Lookup) :
   unfold dirsOf
   split <;> simp [Option.mem_toList]
 
+/-- **C18_ltr_extras**: the set the curs writer splits by (`classifyGlyphs(cmap, gsub, extras)["LTR"]`,
+`applyExtras`) holds exactly the left-to-right glyphs of the specification: the glyphs of the GSUB-closed
+left-to-right set and the glyphs a designspace rule substitutes for one of them (one step) -/
+theorem C18_ltr_extras (i : Input) (g : String) : (ltrSet i.dir).contains g = isLtrGlyph i g := by
+  unfold ltrSet applyExtras isLtrGlyph extrasGet
+  rw [Bool.eq_iff_iff]
+  simp only [contains_eq_mem, decide_eq_true_eq, mem_append, mem_flatMap, mem_map, mem_filter, beq_iff_eq,
+    Bool.or_eq_true, any_eq_true, Bool.and_eq_true]
+  constructor
+  · rintro (h | ⟨l, hl, e, ⟨he, rfl⟩, rfl⟩)
+    · exact Or.inl h
+    · exact Or.inr ⟨e, he, rfl, hl⟩
+  · rintro (h | ⟨e, he, rfl, hl⟩)
+    · exact Or.inl h
+    · exact Or.inr ⟨e.1, hl, e, ⟨he, rfl⟩, rfl⟩
+
+/-- membership form, with the rule spelled out -/
+theorem C18_ltr_extras_mem (i : Input) (g : String) :
+    g ∈ ltrSet i.dir ↔ g ∈ i.dir.ltr.getD [] ∨ ∃ l, (l, g) ∈ i.dir.extras ∧ l ∈ i.dir.ltr.getD [] := by
+  have h := C18_ltr_extras i g
+  rw [Bool.eq_iff_iff] at h
+  simp only [contains_eq_mem, decide_eq_true_eq] at h
+  rw [h]
+  unfold isLtrGlyph
+  simp only [Bool.or_eq_true, contains_eq_mem, decide_eq_true_eq, any_eq_true, Bool.and_eq_true, beq_iff_eq]
+  constructor
+  · rintro (h | ⟨e, he, rfl, hl⟩)
+    · exact Or.inl h
+    · exact Or.inr ⟨e.1, he, hl⟩
+  · rintro (h | ⟨l, he, hl⟩)
+    · exact Or.inl h
+    · exact Or.inr ⟨(l, g), he, rfl, hl⟩
+
+/-- without designspace rules the set is the given one -/
+theorem ltrSet_no_extras (d : DirData) (h : d.extras = []) : ltrSet d = d.ltr.getD [] := by
+  unfold ltrSet applyExtras extrasGet
+  rw [h]
+  simp
+
 /-- flag rule: for a glyph in the group of direction `d`, the model's flag is the specified one -/
 theorem flag_rule (i : Input) (p : String × String) (d : Option Dir) (hd : d ∈ dirsOf i p)
     (g : GlyphIn) (hg : g ∈ groupOf i p d) : flagOf p.1 d = specRtl i p.1 g.name := by
   unfold dirsOf isSplit at hd
   unfold flagOf specRtl splitOn
+  rw [← C18_ltr_extras]
   unfold shouldSplit at hd
   cases hr : isRTLName p.1 with
   | true => simp
@@ -1065,12 +1105,15 @@ theorem C18_curs (i : Input) (h : WF i) : holdsCurs i (run i).curs = true := by
     exact ⟨⟨curs_cover i, curs_sound i h⟩, curs_count i⟩
 
 /-- **C18_curs_flag**: the RightToLeft flag is cleared exactly when the pair has no `.RTL` suffix and
-either has the `.LTR` suffix or (the font has a left-to-right code point and the glyph is in the
-left-to-right set) -/
+either has the `.LTR` suffix or (the font has a left-to-right code point and the glyph is a left-to-right
+glyph: in the GSUB-closed left-to-right set, or substituted for a glyph of it by a designspace rule) -/
 theorem C18_curs_flag (i : Input) (e g : String) :
     specRtl i e g = false ↔
-      isRTLName e = false ∧ (isLTRName e = true ∨ (splitOn i = true ∧ g ∈ ltrSet i.dir)) := by
+      isRTLName e = false ∧ (isLTRName e = true ∨ (splitOn i = true ∧
+        (g ∈ i.dir.ltr.getD [] ∨ ∃ l, (l, g) ∈ i.dir.extras ∧ l ∈ i.dir.ltr.getD []))) := by
+  rw [← C18_ltr_extras_mem]
   unfold specRtl
+  rw [← C18_ltr_extras]
   cases isRTLName e <;> cases isLTRName e <;> simp
 
 /-- decidable form of `caretFirst` -/
@@ -1102,9 +1145,11 @@ def exInput : Input :=
   { glyphs := [⟨"a", [⟨none, 3, 4⟩, ⟨some "entry", 21/2, 0⟩, ⟨some "exit", 100, -1/2⟩]⟩,
                ⟨"alef-ar", [⟨some "entry", 1, 2⟩, ⟨some "entry.LTR", 5, 5⟩]⟩,
                ⟨"beh-ar", [⟨some "exit", 7, 8⟩, ⟨some "exit.LTR", 9, 9⟩]⟩,
-               ⟨"f_i", [⟨some "caret_1", 1001/4, 0⟩, ⟨some "caret_2", 2003/8, 0⟩, ⟨some "vcaret_1", 0, 601/2⟩]⟩],
+               ⟨"f_i", [⟨some "caret_1", 1001/4, 0⟩, ⟨some "caret_2", 2003/8, 0⟩, ⟨some "vcaret_1", 0, 601/2⟩]⟩,
+               ⟨"a.alt", [⟨some "exit", 90, 0⟩]⟩, ⟨"x", [⟨some "entry", 1, 1⟩]⟩],
     categories := [("a", "base"), ("f_i", "ligature"), ("ghost", "mark"), ("beh-ar", "Base")],
-    blocks := [], quant := none, dir := ⟨true, some ["a"]⟩, cursTodo := true }
+    blocks := [], quant := none,
+    dir := { anyLtrCp := true, ltr := some ["a"], extras := [("a", "a.alt"), ("a.alt", "x")] }, cursTodo := true }
 
 example : WF exInput := ⟨by decide, by decide⟩
 example : oneBlock exInput := by simp [oneBlock, exInput]
@@ -1121,6 +1166,10 @@ example : caretCoords exInput.quant ⟨"f_i", [⟨some "caret_1", 1001/4, 0⟩, 
   decide +kernel
 example : exInput.glyphs.all (fun g => hasEither g ("entry", "exit") || hasEither g ("entry.LTR", "exit.LTR")
     || g.name == "f_i") = true := by decide
+/-- the unencoded alternate `a.alt` is left-to-right only through the designspace rule `a -> a.alt`; `x`,
+two rules away from `a`, is not (one step, as in `classifyGlyphs`) -/
+example : specRtl exInput "entry" "a.alt" = false ∧ specRtl exInput "entry" "x" = true ∧
+    specRtl { exInput with dir := { exInput.dir with extras := [] } } "entry" "a.alt" = true := by decide +kernel
 example : ((gdefWrite exInput.quant exInput.glyphs exInput.categories exInput.blocks).classDef == some ⟨["a"], ["f_i"], [], []⟩) = true := by
   decide +kernel
 
@@ -1276,5 +1325,34 @@ theorem specPairs_drop (i : Input) : specPairs (dropUnnamedIn i) = specPairs i :
     cases a.name <;> simp
   unfold specPairs hasName
   rw [this]
+
+/-! ### writer instances used for several fonts, one after the other -/
+
+/-- the instances are unchanged by a `write()` and the k-th output is that of a fresh build of the k-th font -/
+theorem runSeq_eq (w : Writers) (is : List Input) :
+    runSeq w is = is.map (fun i => run { i with quant := w.quant }) := by
+  induction is with
+  | nil => rfl
+  | cons i is ih => simp only [runSeq, writeOne, map_cons, ih]
+
+theorem runSeq_length (w : Writers) (is : List Input) : (runSeq w is).length = is.length := by
+  rw [runSeq_eq, length_map]
+
+/-- **C18_seq** (hypotheses as in `C18_all_partial`, for every font of the sequence): whatever fonts were
+compiled before with the same writer instances, each font's output satisfies the class, caret and cursive
+predicates with respect to ITS OWN UFO data -/
+theorem C18_seq (w : Writers) (is : List Input)
+    (h : ∀ i ∈ is, WF i ∧ oneBlock i ∧ caretNamesOk i) (k : Nat) (hk : k < is.length) :
+    holdsClassesFea { is[k] with quant := w.quant } ((runSeq w is)[k]'(by rw [runSeq_length]; exact hk)).gdef.classDef = true ∧
+    holdsCaretsFea { is[k] with quant := w.quant } ((runSeq w is)[k]'(by rw [runSeq_length]; exact hk)).gdef.carets = true ∧
+    holdsCurs { is[k] with quant := w.quant } ((runSeq w is)[k]'(by rw [runSeq_length]; exact hk)).curs = true := by
+  simp only [runSeq_eq, getElem_map]
+  obtain ⟨hw, hb, hc⟩ := h is[k] (getElem_mem hk)
+  exact C18_all_partial { is[k] with quant := w.quant } ⟨hw.keys, hw.names⟩ hb hc
+
+/-- the output for a font does not depend on the fonts compiled before it -/
+theorem C18_seq_independent (w : Writers) (pre pre' : List Input) (i : Input) :
+    (runSeq w (pre ++ [i])).getLast? = (runSeq w (pre' ++ [i])).getLast? := by
+  simp [runSeq_eq]
 
 end Ufo2ft.C18
